@@ -423,7 +423,7 @@ fn main() {
                 Ok(fails) => {
                     if !fails.is_empty() {
                         let mut fails = fails;
-                        fails.truncate(4);
+                        fails.truncate(if std::env::var("X_FULL").is_ok() { 100 } else { 4 });
                         rep.mismatch("the built runtime differs from what the builder calls denote", case, json!({"mode": mode, "fails": fails}));
                     }
                 }
